@@ -401,7 +401,7 @@ pub fn run(ctx: &mut Ctx) {
     crate::props::run_regressions(ctx, "C02");
 
     ctx.layer("exhaustive");
-    let dsets: Vec<DS> = { let mut v = dsets_up_to(2, t.pick(5, 6)); v.extend(dsets_up_to(3, t.pick(4, 5))); v.extend(dsets_up_to(1, t.pick(6, 8))); v };
+    let dsets: Vec<DS> = { let mut v = dsets_up_to(2, t.pick(5, 7)); v.extend(dsets_up_to(3, t.pick(4, 5))); v.extend(dsets_up_to(1, t.pick(6, 8))); v };
     let mut cases = vec![];
     let mut complete = true;
     for ds in &dsets {
@@ -411,14 +411,14 @@ pub fn run(ctx: &mut Ctx) {
             cases.push(Query { ds: s, indices: vec![], seeds: vec![], holes: vec![] });
         }
     }
-    let note = format!("all branching assignments v <= 2 on all {} D-sets (dim 2 size <= {}, dim 3 size <= {}, dim 1 size <= {}) x all non-empty index subsets x seed lists", dsets.len(), t.pick(5, 6), t.pick(4, 5), t.pick(6, 8));
+    let note = format!("all branching assignments v <= 2 on all {} D-sets (dim 2 size <= {}, dim 3 size <= {}, dim 1 size <= {}) x all non-empty index subsets x seed lists", dsets.len(), t.pick(5, 7), t.pick(4, 5), t.pick(6, 8));
     ctx.run_par(&SUB_QUERY, cases, if complete { Some(&note) } else { None });
     if !complete {
         ctx.note(format!("{} (capped per D-set)", note));
     }
 
     ctx.layer("random");
-    let n = t.pick(20_000u32, 300_000u32);
+    let n = t.pick(20_000u32, 1_500_000u32);
     let q = |s: BoxedStrategy<DS>| {
         (s, prop::collection::vec(0usize..4, 0..4), prop::collection::vec(1usize..80, 0..5), prop::collection::vec((0usize..4, 0usize..80), 0..3))
             .prop_map(|(ds, indices, seeds, holes)| {
